@@ -119,13 +119,22 @@ FSampleProject(r) ==
          F("SampleProjectShape", s.sh = exp.sh) \cup
          (IF s.sh # exp.sh THEN {} ELSE IF ~AllNum(s.d) THEN {"SampleProjectNonFinite"}
           ELSE F("SampleProject", CloseSeq(s.d, exp.d, TauOf(r), Floor(r.in.phi, grids, TauOf(r)))))
-\* observed from_phi(...).marginalize([a]): must be the sample from phi with population a integrated out (trapezoid rule)
+\* observed from_phi(...).marginalize(axes): must be the sample from phi with those populations integrated out (trapezoid
+\* rule).  in.over = one population, or in.overs = several populations IN THE ORDER THE CALLER LISTED THEM: the populations
+\* form a set, the order of the list means nothing (the largest is integrated out first, so the smaller numbers stay valid)
+OverSet(r) == IF "overs" \in DOMAIN r.in THEN {r.in.overs[k] : k \in 1..Len(r.in.overs)} ELSE {r.in.over}
+SetMax(S) == CHOOSE x \in S : \A y \in S : y <= x
+RECURSIVE MargSpec(_, _, _, _, _, _, _)
+MargSpec(r, phi, ns, grids, Fs, ploidys, S) ==
+    IF S = {} THEN SpecOf(r, phi, ns, grids, Fs, ploidys)
+    ELSE LET a == SetMax(S) IN
+         MargSpec(r, TrapzAxis(phi, a, grids[a]), GRemoveAt(ns, a), GRemoveAt(grids, a), GRemoveAt(Fs, a), GRemoveAt(ploidys, a), S \ {a})
 FSampleMarg(r) ==
-    LET grids == ClampAll(r.in.grids) a == r.in.over IN
+    LET grids == ClampAll(r.in.grids) S == OverSet(r) IN
     IF ~GridsOK(r.in.phi, grids) THEN {"BadRecord"}
+    ELSE IF ~(S \subseteq 1..Len(r.in.ns)) \/ Cardinality(S) >= Len(r.in.ns) THEN {"BadRecord"}
     ELSE IF Raised(r) THEN {"SampleMargRaised"}
-    ELSE LET exp == SpecOf(r, TrapzAxis(r.in.phi, a, grids[a]), GRemoveAt(r.in.ns, a), GRemoveAt(grids, a),
-                         GRemoveAt(r.in.Fs, a), GRemoveAt(r.in.ploidys, a))
+    ELSE LET exp == MargSpec(r, r.in.phi, r.in.ns, grids, r.in.Fs, r.in.ploidys, S)
              s == r.out.s IN
          F("SampleMargShape", s.sh = exp.sh) \cup
          (IF s.sh # exp.sh THEN {} ELSE IF ~AllNum(s.d) THEN {"SampleMargNonFinite"}
